@@ -2,9 +2,11 @@ import IxpeVerif.Num
 import IxpeVerif.Model.Livetime
 import IxpeVerif.Model.EventList
 import IxpeVerif.Gen.Formulas
+import IxpeVerif.Gen.Tables
 import IxpeVerif.Model.Gti
 import IxpeVerif.Model.Select
 import IxpeVerif.Model.SelectKw
+import IxpeVerif.Model.Channels
 /-! Dispatcher of the hand-written models for the line-protocol driver.  Integers travel in decimal. -/
 namespace Driver
 
@@ -126,6 +128,17 @@ def step (ws : List String) : String :=
     match SelKw.keywords k with
     | none => "none"
     | some o => " ".intercalate [showOptF o.tstart, showOptF o.tstop, toString o.ontime.toBits, toString o.livetime.toBits, toString o.deadc.toBits]
+  -- e2c <n> emax(f64 bits)… <m> E(f64 bits)…  -> channel per energy (searchsorted left on keys)
+  | "e2c" :: rest =>
+    let (b, rest) := takeN rest
+    let (e, _) := takeN rest
+    let keys := (ints b).map key64
+    showInts ((ints e).map fun x => (Chan.searchLeft keys (key64 x) : Int))
+  -- e2cgrid <n> E(eV)…  -> channel on the ideal generated grid
+  | "e2cgrid" :: rest =>
+    let (e, _) := takeN rest
+    showInts ((ints e).map fun x => (Chan.e2cGrid Gen.energyStepEv Gen.numChannels x : Int))
+  | ["rint", t] => showInts [Chan.rintHalf t.toInt!]
   | ["pikey", pi] => showInts [piKey pi.toInt!]
   | ["split", t] => let r := EvL.splitTime t.toInt!; showInts [r.1, r.2]
   | _ => "bad-op"
